@@ -120,7 +120,7 @@ func (o Options) Project(n any) any {
 	case *ast.RTime:
 		return M{"k": "rtime", "v": t.Value}
 	case *ast.Boolean:
-		return M{"k": "bool", "v": t.Value}
+		return M{"k": "bool", "b": t.Value}
 	case *ast.PrefixExpression:
 		return M{"k": "prefix", "op": t.Operator, "right": o.Project(t.Right)}
 	case *ast.InfixExpression:
